@@ -1,6 +1,8 @@
 #!/bin/bash
 # apply every seeded change in turn, run the check of its property, record which obligations fire
 cd /verif
+# evidence files are rewritten by every run: keep the ones from the unchanged tree
+bak=$(mktemp -d); cp -r /verif/evidence $bak/
 out=seeded/RESULTS.md
 echo "| seed | property | change | obligations that fail (quick check) |" > $out
 echo "|---|---|---|---|" >> $out
@@ -16,4 +18,5 @@ for d in seeded/*/; do
   echo "| $id | $prop | $files | $res |" >> $out
 done
 git -C /repo status --short
+rm -rf /verif/evidence; cp -r $bak/evidence /verif/evidence; rm -rf $bak
 cat $out
